@@ -296,24 +296,27 @@ Fixpoint zseq (start : Z) (len : nat) : list Z :=
   match len with O => [] | S l => start :: zseq (start + 1)%Z l end.
 
 (* CayleyGraphDef.create(generators, generator_names) and __post_init__ for permutation generators *)
-Definition create_check (gens : list (list nat)) : result nat :=
+(* [isp] decides "sorted(perm) == list(range(len(perm)))"; the model uses [is_perm], the harness
+   evaluates with a cheaper test proved equal to it (GapProofs.is_perm_fast_eq) *)
+Definition create_check_with (isp : list nat -> bool) (gens : list (list nat)) : result nat :=
   match gens with
   | [] => Err IndexErr                                 (* generators_list[0] *)
   | g0 :: _ =>
       let n := List.length g0 in
-      if forallb (fun p => Nat.eqb (List.length p) n && is_perm p) gens then Ok n else Err AssertionErr
+      if forallb (fun p => Nat.eqb (List.length p) n && isp p) gens then Ok n else Err AssertionErr
   end.
+Definition create_check := create_check_with is_perm.
 
 Definition central_ok (n : nat) (c : list Z) : bool :=
   forallb (fun v => (0 <=? v) && (v <? Z.of_nat n))%Z c.
 
-Definition build_gap (s : pstate) : result gap_puzzle :=
+Definition build_gap_with (isp : list nat -> bool) (s : pstate) : result gap_puzzle :=
   match zmax_list (List.concat (List.concat (map snd (ps_dict s)))) with
   | None => Err ValueErr                               (* max() of an empty sequence *)
   | Some nz =>
       let n := Z.to_nat nz in
       do gens <- sequence_r (map (fun nm => from_cycles n (gdict_get nm (ps_dict s)) 1%Z) (ps_names s));
-      do n' <- create_check gens;
+      do n' <- create_check_with isp gens;
       let names := map string_of_chars (ps_names s) in
       match ps_ip s with
       | None => if (1 <=? n')%nat then Ok (mk_gap names gens n' (zseq 0 n')) else Err AssertionErr
@@ -326,9 +329,16 @@ Definition build_gap (s : pstate) : result gap_puzzle :=
       end
   end.
 
-Definition parse_gap_chars (text : chars) : result gap_puzzle :=
-  do s <- fold_left step_line (split_char "010" text) (Ok (mk_pstate [] [] None));
-  build_gap s.
+Definition build_gap := build_gap_with is_perm.
+
+Definition parse_lines (text : chars) : result pstate :=
+  fold_left step_line (split_char "010" text) (Ok (mk_pstate [] [] None)).
+
+Definition parse_gap_chars_with (isp : list nat -> bool) (text : chars) : result gap_puzzle :=
+  do s <- parse_lines text;
+  build_gap_with isp s.
+
+Definition parse_gap_chars := parse_gap_chars_with is_perm.
 
 Definition parse_gap_file (text : string) : result gap_puzzle := parse_gap_chars (chars_of_string text).
 
@@ -338,6 +348,9 @@ Definition ends_with (suffix s : chars) : bool :=
   let ls := List.length s in let lx := List.length suffix in
   (lx <=? ls)%nat && chars_eqb (skipn (ls - lx) s) suffix.
 
-Definition load_puzzle_from_file (file_name text : string) : result gap_puzzle :=
-  if ends_with (chars_of_string ".gap") (chars_of_string file_name) then parse_gap_file text
+Definition load_puzzle_from_file_with (isp : list nat -> bool) (file_name text : string) : result gap_puzzle :=
+  if ends_with (chars_of_string ".gap") (chars_of_string file_name)
+  then parse_gap_chars_with isp (chars_of_string text)
   else Err AssertionErr.
+
+Definition load_puzzle_from_file := load_puzzle_from_file_with is_perm.
